@@ -247,6 +247,7 @@ type concrOutcome struct {
 type concr struct {
 	oracle      func(args []cval) (cval, bool)                       // answers of a cOracle function value
 	intercept   func(callee *ssa.Function, args []cval) (cval, bool) // calls the asking rule takes over (not followed)
+	interceptCall func(call *ssa.Call, args []cval) (cval, bool) // the same with the call in hand (function-valued arguments are read off its operands)
 	w           *World
 	steps       int
 	globals     map[*ssa.Global]*ccell // package-level variables written during the interpretation (package initialisers)
@@ -625,6 +626,16 @@ func (ci *concr) runB(fn *ssa.Function, args []cval, bindings []cval, depth int)
 					continue
 				}
 				callee := x.Call.StaticCallee()
+				if callee != nil && ci.interceptCall != nil && !x.Call.IsInvoke() {
+					var as []cval
+					for _, a := range x.Call.Args {
+						as = append(as, get(a))
+					}
+					if res, taken := ci.interceptCall(x, as); taken {
+						env[x] = res
+						continue
+					}
+				}
 				if callee != nil && ci.intercept != nil && !x.Call.IsInvoke() {
 					var as []cval
 					for _, a := range x.Call.Args {
@@ -772,6 +783,9 @@ func (ci *concr) runB(fn *ssa.Function, args []cval, bindings []cval, depth int)
 					a.cell.v = get(x.Val)
 				case cElem:
 					a.arr.e[a.idx] = get(x.Val)
+				case cField:
+					// a field of a struct the asking rule supplied (its field map is shared by every copy of the value)
+					a.dyn.fields[a.field] = get(x.Val)
 				case cArr:
 					// a whole array is assigned: the zero value, or a copy of another array
 					at, _ := x.Val.Type().Underlying().(*types.Array)
